@@ -86,8 +86,24 @@ def run_jobs(modname, jobs, nproc=None, tier="quick", seed=0):
     ctx = mp.get_context("fork")
     with ctx.Pool(nproc, maxtasksperchild=None) as pool:
         pre_async = pool.apply_async(_worker_preflight, ((modname, tier, seed),))
-        results = list(pool.imap_unordered(_worker_run, [(modname, j) for j in jobs], chunksize=1))
-        pre_info = pre_async.get()
+        it = pool.imap_unordered(_worker_run, [(modname, j) for j in jobs], chunksize=1)
+        results = []
+        # multiprocessing.Pool never notices a worker that died (killed, segfault): its job is simply lost and the
+        # iterator waits for ever.  No job runs longer than its own caps (<= ~20 min), so 45 silent minutes mean a
+        # lost job: report it as a harness error instead of hanging.
+        stall = float(os.environ.get("VERIF_STALL_S", "2700"))
+        for _ in range(len(jobs)):
+            try:
+                results.append(it.next(timeout=stall))
+            except mp.TimeoutError:
+                results.append({"harness_error": f"no job finished for {int(stall)} s: a pool worker died and its job was lost "
+                                                 f"({len(jobs) - len(results)} job(s) outstanding)", "traceback": "", "job": "?"})
+                pool.terminate()
+                break
+        try:
+            pre_info = pre_async.get(timeout=600)
+        except Exception as e:  # noqa: BLE001
+            pre_info = {"error": repr(e)}
     return results, pre_info
 
 
